@@ -133,13 +133,17 @@ fn fam_mapfile_enums(rng: &mut Rng, idx: usize) -> Input {
         let _ = writeln!(src, "    ins_{}({});", 900 + e, 10);
     }
     src.push_str("}\n");
+    // without an ambiguity the order of the sections shows only in the debug info (the consts are listed in that order):
+    // every other input of this family asks for it (directed at the site), the rest do not (and must be deterministic)
+    let with_dbg = ambiguous || idx % 4 == 3;
+    let compile = if with_dbg { step(&["truanm", "compile", "-g12", "in.spec", "-o", "out.anm", "--output-debug-info", "dbg.json"], &["out.anm", "dbg.json"]) }
+                  else { step(&["truanm", "compile", "-g12", "in.spec", "-o", "out.anm"], &["out.anm"]) };
     Input {
-        family: if n_amb >= 2 { "anm-enums-ambiguous".into() } else { "anm-enums".into() },
-        // (also without an ambiguity the order of the sections shows: the consts are listed in that order in the debug info)
-        tag: "extend_from_mapfile/mapfile.enums".into(), perm: false,
+        family: if n_amb >= 2 { "anm-enums-ambiguous".into() } else if with_dbg { "anm-enums-debuginfo".into() } else { "anm-enums".into() },
+        tag: if with_dbg { "extend_from_mapfile/mapfile.enums".into() } else { String::new() }, perm: false,
         files: vec![("m.anmm".into(), m.into_bytes()), ("in.spec".into(), src.into_bytes())],
         steps: vec![
-            step(&["truanm", "compile", "-g12", "in.spec", "-o", "out.anm", "--output-debug-info", "dbg.json"], &["out.anm", "dbg.json"]),
+            compile,
             step(&["truanm", "decompile", "-g12", "-m", "m.anmm", "out.anm"], &[]),
             step(&["truanm", "decompile", "-g12", "out.anm"], &[]),
         ],
@@ -416,6 +420,13 @@ fn corpus_inputs(dirs: &[String]) -> Vec<Input> {
             }
         }
     }
+    // a mapfile with two or more `!enum` sections exercises the site extend_from_mapfile/mapfile.enums
+    // (order of the consts in the debug info, choice of the reported ambiguity)
+    for inp in out.iter_mut() {
+        if inp.tag.is_empty() && inp.files.iter().any(|(_, b)| String::from_utf8_lossy(b).matches("!enum(").count() >= 2) {
+            inp.tag = "extend_from_mapfile/mapfile.enums".into();
+        }
+    }
     out
 }
 
@@ -524,9 +535,14 @@ fn read_input(dir: &Path) -> Input {
 
 struct Outcome { lines: Vec<String>, launches: usize, differing: bool, ok_exit: usize, any_diag: bool }
 
-fn examine(dir: &Path, inp: &Input, n: usize) -> Outcome {
+fn examine(dir: &Path, inp: &Input, n: usize, deadline: Option<std::time::Instant>) -> Outcome {
     let mut ls = vec![];
-    for _ in 0..n { ls.push(run_launch(dir, inp)); }
+    for i in 0..n {
+        // past the time budget an input that has had 8 launches is not launched further
+        if i >= 8 { if let Some(d) = deadline { if std::time::Instant::now() > d { break; } } }
+        ls.push(run_launch(dir, inp));
+    }
+    let n = ls.len();
     let digests: Vec<String> = ls.iter().map(|l| l.digest().to_string()).collect();
     let mut lines = vec![format!("RUN\tKRuns [{}]\t{}\t{}", digests.join("; "), inp.family, dir.display())];
     if inp.perm {
@@ -566,7 +582,7 @@ fn main() {
         let dir = PathBuf::from(&args[2]);
         let n: usize = args.get(3).and_then(|s| s.parse().ok()).unwrap_or(8);
         let inp = read_input(&dir);
-        let o = examine(&dir, &inp, n);
+        let o = examine(&dir, &inp, n, None);
         for l in o.lines { println!("{}", l); }
         println!("STATS\tinputs=1 launches={} differing={}", o.launches, o.differing as u32);
         return;
@@ -604,7 +620,7 @@ fn main() {
             if t0.elapsed().as_secs() > budget_s { *skipped.lock().unwrap() += 1; continue; }
             let dir = root.join(format!("i{:04}", idx));
             write_input(&dir, &inp);
-            let o = examine(&dir, &inp, n);
+            let o = examine(&dir, &inp, n, Some(t0 + std::time::Duration::from_secs(budget_s)));
             results.lock().unwrap().insert(idx, (o, inp.family.clone(), inp.tag.clone()));
         }));
     }
